@@ -1,0 +1,8 @@
+//go:build verif
+
+package replay
+
+// VerifFileSource gives a verification harness the file data source of a
+// recording (gzip stream file / zip batch archive), which is otherwise only
+// reachable through the service's HTTP API.  Absent from normal builds.
+func VerifFileSource(path string) DataSource { return fileSource(path) }
